@@ -7,6 +7,7 @@ impl  : parse_file -E
 oracle: gcc -E -P -std=c++23 on the same file, compared token by token
 """
 import os
+import re
 import subprocess
 import sys
 
@@ -198,6 +199,56 @@ def main():
                          {'kind': 'correspondence', 'cmd': 'scan_tool: q <hex>', 'input_hex': t.hex(), 'implementation': a, 'model': m_}, nofail=True)
         else:
             ck.nontrivial(('q', t))
+
+    # ---------------- stream 3c: the substitution step r_expand (parameters, #, ##, __VA_ARGS__, __VA_OPT__, the comma rule) against the extracted model ------
+    #                  (proved total and proved to honour __VA_OPT__ exactly when the variable arguments have text)
+    def gen_define():
+        names = rng.sample(['a', 'b', 'c'], rng.randrange(0, 4))
+        variadic = rng.random() < 0.45
+        plist = names + ([rng.choice(['...', '...', 'rest...'])] if variadic else [])
+        refs = names + (['__VA_ARGS__' if 'rest...' not in plist else 'rest'] if variadic else []) + ['zz']
+        plain = ['x', '1', '+', ',', '(', ')', '"s"', "'c'", '1.5e+3', 'x_y', '[', ']', 'a1', '0x1f']
+
+        def body(depth):
+            out = []
+            for _ in range(rng.randrange(0, 6)):
+                r = rng.random()
+                if r < 0.35:
+                    out.append((rng.choice(['#', '# ', '']) if rng.random() < 0.3 else '') + rng.choice(refs))
+                elif r < 0.45:
+                    out.append('##')
+                elif r < 0.6 and depth < 2:
+                    out.append('__VA_OPT__' + rng.choice(['(', ' (']) + body(depth + 1) + ')')
+                else:
+                    out.append(rng.choice(plain))
+            return rng.choice([' ', ' ', '  ', '']).join(out) if rng.random() < 0.3 else ' '.join(out)
+        return 'F(%s) %s' % (rng.choice([', ', ',', ' , ']).join(plist), body(0))
+    ARGS = ['1', 'x y', '', '"s,t"', '(p, q)', 'p q r', ' lead', 'trail ', 'm##n', '#', 'F', 'zz', "'\\''", '"a\\"b"', ',', '()', '2 + 3']
+    scases = []
+    for _ in range(ck.scale(2500, 60000)):
+        d_ = gen_define()
+        args_ = [rng.choice(ARGS) for _ in range(rng.choice([0, 1, 1, 2, 2, 3, 3, 4, 5]))]
+        if any(',' in a and not (a.startswith('(') or a.startswith('"')) for a in args_) and rng.random() < 0.5:
+            args_ = [a for a in args_ if a != ',']
+        scases.append((d_, args_))
+    slines = ['%s %s' % (d_.encode('latin-1').hex(), ','.join(a.encode('latin-1').hex() for a in args_) if args_ else '-') for d_, args_ in scases]
+    pr = subprocess.run([stool, os.path.join(wd, 'line.txt')], input=''.join('s %s\n' % l for l in slines), text=True, stdout=subprocess.PIPE, stderr=subprocess.PIPE)
+    impl_x = pr.stdout.splitlines()
+    model_x = vlib.run_model('C08', 'subst', slines)
+    if len(impl_x) != len(slines):
+        ck.count()
+        ck.violation('corr_C08_subst', 'the harness answered %d of %d substitution cases (rc=%s): %s' % (len(impl_x), len(slines), pr.returncode, pr.stderr[-300:]),
+                     {'kind': 'correspondence', 'cmd': 'scan_tool: s <hex define> <hex args>', 'first_unanswered': slines[len(impl_x)] if len(impl_x) < len(slines) else None}, nofail=True)
+    for (d_, args_), a, m_ in zip(scases, impl_x, model_x):
+        ck.count()
+        ck.dist('substitution:%s' % ('va_opt' if '__VA_OPT__' in d_ else 'variadic' if '...' in d_ else 'plain'))
+        if a != m_:
+            ck.violation('corr_C08_subst', '#define %s invoked with arguments %r: CPPManifest::expand gives %r, the model %r' %
+                         (d_, args_, bytes.fromhex(a) if re.fullmatch('[0-9a-f]*', a) else a, bytes.fromhex(m_) if re.fullmatch('[0-9a-f]*', m_) else m_),
+                         {'kind': 'correspondence', 'cmd': 'scan_tool: s <hex define> <hex arg>,...', 'define': d_, 'arguments': args_, 'implementation': a, 'model': m_,
+                          'theorems': ['c08_va_opt_iff', 'c08_parameter_replacement', 'c15_r_expand_total']}, nofail=True)
+        else:
+            ck.nontrivial(('s', d_, tuple(args_)))
 
     # ---------------- stream 4: recorded departures from the standard (witness programs) -------------------------------------------------
     for key, src in WITNESSES:
